@@ -1,7 +1,11 @@
+import AwsVerif.Gen.DateConsts
+import AwsVerif.Gen.Math
 /-!
 # Model of `source/date_time.c` (C19)
 
-Core Lean only.  Bytes are `Nat` values (the driver feeds values `< 256`); text is `List Nat`.
+Core Lean only (plus the generated layer: `AwsVerif.Gen.Date` — format strings, formatter dispatch,
+month table, zone spellings, reader constants, conversion units, regenerated from date_time.c on every
+run by gen/date_gen.py — and `AwsVerif.Gen.Math.Clock.aws_timestamp_convert`).  Bytes are `Nat` values (the driver feeds values `< 256`); text is `List Nat`.
 
 Three layers:
 
@@ -221,37 +225,32 @@ def wrap32 (x : Int) : Int := (x + 2147483648) % 4294967296 - 2147483648
 /-- `STR_TRIPLET_TO_INDEX`: for byte values the bit-or of the shifted bytes is this sum -/
 def triplet (a b c : Nat) : Nat := toLower a + 256 * toLower b + 65536 * toLower c
 
-/-- `get_month_number_from_str(str, start, stop)` on the window `w = str[start, stop)` -/
-def monthNumber (w : List Nat) : Option Nat :=
-  match w with
-  | a :: b :: c :: _ =>
-    let v := triplet a b c
-    if v = triplet 106 97 110 then some 0        -- "jan"
-    else if v = triplet 102 101 98 then some 1   -- "feb"
-    else if v = triplet 109 97 114 then some 2   -- "mar"
-    else if v = triplet 97 112 114 then some 3   -- "apr"
-    else if v = triplet 109 97 121 then some 4   -- "may"
-    else if v = triplet 106 117 110 then some 5  -- "jun"
-    else if v = triplet 106 117 108 then some 6  -- "jul"
-    else if v = triplet 97 117 103 then some 7   -- "aug"
-    else if v = triplet 115 101 112 then some 8  -- "sep"
-    else if v = triplet 111 99 116 then some 9   -- "oct"
-    else if v = triplet 110 111 118 then some 10 -- "nov"
-    else if v = triplet 100 101 99 then some 11  -- "dec"
-    else none
-  | _ => none                                     -- stop - start < 3
+/-- a table entry (a string literal of `s_check_init_str_to_int`) against the packed window -/
+def tripletMatches (a b c : Nat) (t : List Nat) : Bool :=
+  match t with
+  | [x, y, z] => triplet x y z = triplet a b c
+  | _ => false
 
-/-- `is_utc_time_zone` on the NUL-terminated zone buffer (its bytes are never 0) -/
+/-- `get_month_number_from_str(str, start, stop)` on the window `w = str[start, stop)`: the compare chain
+of the generated `Gen.Date.monthTable`, first match wins -/
+def monthNumber (w : List Nat) : Option Nat :=
+  if w.length < Gen.Date.monthMinWindow then none
+  else match w with
+    | a :: b :: c :: _ => (Gen.Date.monthTable.find? (fun e => tripletMatches a b c e.1)).map (·.2)
+    | _ => none
+
+/-- `is_utc_time_zone` on the NUL-terminated zone buffer (its bytes are never 0); the spellings are the
+generated ones -/
 def isUtcTimeZone (tz : List Nat) : Bool :=
   match tz with
   | [] => false
   | a :: rest =>
-    if toLower a = 122 then true
-    else if tz.length = 5 ∧ (a = 43 ∨ a = 45) then true
+    if toLower a = Gen.Date.utcSingle then true
+    else if tz.length = Gen.Date.offsetZoneLen ∧ a ∈ Gen.Date.offsetSigns then true
     else match rest with
       | [] => false
-      | [b] => toLower a = 117 ∧ toLower b = 116
-      | b :: c :: _ => triplet a b c = triplet 117 116 99 ∨ triplet a b c = triplet 103 109 116
+      | [b] => toLower a = Gen.Date.utcPair.1 ∧ toLower b = Gen.Date.utcPair.2
+      | b :: c :: _ => Gen.Date.utcTriplets.any (tripletMatches a b c)
 
 /-- machine state.  `tok` is the text `str[state_start_index, index)`, so `index - state_start_index`
 is `tok.length` and the month look-up window is `tok ++ [c]`. -/
@@ -264,6 +263,9 @@ structure R where
 deriving Repr, DecidableEq, Inhabited
 
 def dval (c : Nat) : Int := (c : Int) - 48
+
+/-- libc: `tm_year` counts from 1900; the model's `Tm.year` is the full year -/
+def tmYearBase : Int := 1900
 
 def rstep (r : R) (c : Nat) : R :=
   let keep : R := { r with tok := r.tok ++ [c] }
@@ -286,8 +288,10 @@ def rstep (r : R) (c : Nat) : R :=
       | none => fail
     else if !isAlpha c then fail else keep
   | .onYear =>
-    if isSpace c ∧ r.tok.length = 4 then { r with st := .onHour, tok := [] }
-    else if isSpace c ∧ r.tok.length = 2 then { r with st := .onHour, tok := [], tm := { r.tm with year := r.tm.year + 2000 } }
+    if isSpace c ∧ r.tok.length = Gen.Date.rfcYear4Digits then
+      { r with st := .onHour, tok := [], tm := { r.tm with year := r.tm.year - Gen.Date.rfcYear4Sub + tmYearBase } }
+    else if isSpace c ∧ r.tok.length = Gen.Date.rfcYear2Digits then
+      { r with st := .onHour, tok := [], tm := { r.tm with year := r.tm.year + Gen.Date.rfcYear2Add - Gen.Date.rfcYear2Sub + tmYearBase } }
     else if isDigit c then { keep with tm := { r.tm with year := wrap32 (r.tm.year * 10 + dval c) } }
     else fail
   | .onHour =>
@@ -303,7 +307,7 @@ def rstep (r : R) (c : Nat) : R :=
     else if isDigit c then { keep with tm := { r.tm with sec := wrap32 (r.tm.sec * 10 + dval c) } }
     else fail
   | .onTz =>
-    if (isAlnum c || c == 45 || c == 43) ∧ r.tok.length < 5 then { keep with tz := r.tz ++ [c] }
+    if (isAlnum c || c == 45 || c == 43) ∧ r.tok.length < Gen.Date.tzMaxChars then { keep with tz := r.tz ++ [c] }
     else fail
   | .finished => fail
 
@@ -313,8 +317,8 @@ def rrun (r : R) : List Nat → R
   | c :: cs => if r.err then r else rrun (rstep r c) cs
 
 /-- `s_parse_rfc_822`: `some (tm, tz, utc_assumed)` when it returns true.  In the model `tm.year`
-is the full year (`tm_year + 1900`): the 4-digit branch (`tm_year -= 1900`) leaves it as read, the
-2-digit branch (`tm_year += 2000 - 1900`) adds 2000. -/
+is the full year (`tm_year + 1900`): the 4-digit branch (`tm_year -= 1900`) and the 2-digit branch
+(`tm_year += 2000 - 1900`) apply the generated constants and libc's base is added back. -/
 def parseRfc822 (s : List Nat) : Option (Tm × List Nat × Bool) :=
   let r := rrun {} s
   let utc := r.tz ≠ [] ∧ isUtcTimeZone r.tz
@@ -378,7 +382,7 @@ def parseIso (s : List Nat) : Option (Tm × Int) := do
   let (mon, s) ← readDigits 2 s 0
   let s ← (if sep then (match s with | 45 :: s' => some s' | _ => none) else some s)
   let (mday, s) ← readDigits 2 s 0
-  let tm : Tm := { year := year, mon := (mon : Int) - 1, mday := mday }
+  let tm : Tm := { year := (year : Int) - Gen.Date.isoYearSub + tmYearBase, mon := (mon : Int) - 1, mday := mday }
   match s with
   | [] => some (tm, 0)
   | c :: s =>
@@ -407,7 +411,7 @@ def rfcOffset (tz : List Nat) : Int :=
     else 0
   | _ => 0
 
-def maxStrLen : Nat := 100   -- AWS_DATE_TIME_STR_MAX_LEN
+def maxStrLen : Nat := Gen.Date.AWS_DATE_TIME_STR_MAX_LEN
 
 def mkDateTime (ts : Int) (ms : Nat) (utc : Bool) (tz : List Nat) : DateTime :=
   { timestamp := ts, millis := ms, gmt := gmtime ts, utcAssumed := utc, tz := tz }
@@ -442,40 +446,75 @@ def formatText (tm : Tm) (fmt : Fmt) (short : Bool) : Option (List Nat) :=
   | .iso8601Basic, true => some (fmtBasicShort tm)
   | .autoDetect, _ => none
 
-/-- `cap` = remaining space of the output buffer; `strftime` needs room for the text and a NUL -/
+/-- one conversion specification of `strftime` (C locale); `none`: not modelled (e.g. `%Z`) -/
+def strftimeConv (c : Nat) (tm : Tm) : Option (List Nat) :=
+  if c = 97 then some (dayName tm.wday)             -- %a
+  else if c = 98 then some (monthName tm.mon)       -- %b
+  else if c = 100 then some (printPad2 tm.mday)     -- %d
+  else if c = 109 then some (printPad2 (tm.mon + 1)) -- %m
+  else if c = 89 then some (printYear tm.year)      -- %Y
+  else if c = 72 then some (printPad2 tm.hour)      -- %H
+  else if c = 77 then some (printPad2 tm.min)       -- %M
+  else if c = 83 then some (printPad2 tm.sec)       -- %S
+  else if c = 37 then some [37]                     -- %%
+  else none
+
+/-- model of `strftime(buf, max, fmt, tm)` as far as the text goes -/
+def strftime : List Nat → Tm → Option (List Nat)
+  | [], _ => some []
+  | c :: r, tm =>
+    if c = 37 then
+      match r with
+      | [] => none
+      | k :: r' =>
+        match strftimeConv k tm, strftime r' tm with
+        | some a, some b => some (a ++ b)
+        | _, _ => none
+    else (strftime r tm).map (c :: ·)
+
+def fmtIndex : Fmt → Nat
+  | .rfc822 => Gen.Date.AWS_DATE_FORMAT_RFC822
+  | .iso8601 => Gen.Date.AWS_DATE_FORMAT_ISO_8601
+  | .iso8601Basic => Gen.Date.AWS_DATE_FORMAT_ISO_8601_BASIC
+  | .autoDetect => Gen.Date.AWS_DATE_FORMAT_AUTO_DETECT
+
+/-- the `switch` of `aws_date_time_to_utc_time_str` / `…_short_str` as generated: which `struct tm` and
+which format string; the model only has `gmt_time`, a case formatting `local_time` is outside it (`none`) -/
+def formatTextGen (tm : Tm) (fmt : Fmt) (short : Bool) : Option (List Nat) :=
+  match (if short then Gen.Date.utcShortStr else Gen.Date.utcStr).find? (fun e => e.1 = fmtIndex fmt) with
+  | some (_, true, f) => strftime f tm
+  | _ => none
+
+/-- `cap` = remaining space of the output buffer; `strftime` needs room for the text and a NUL.
+(`formatText` above is the closed form; `Proofs.C19.formatTextGen_eq` shows the two agree.) -/
 def formatUtc (dt : DateTime) (fmt : Fmt) (short : Bool) (cap : Nat) : Except Err (List Nat) :=
-  match formatText dt.gmt fmt short with
+  match formatTextGen dt.gmt fmt short with
   | none => .error .invalidArgument
   | some t => if t.length + 1 > cap ∨ t.length = 0 then .error .shortBuffer else .ok t
 
 /-! ### epoch views -/
 
 abbrev u64 : Nat := 18446744073709551616
-def satMul (a b : Nat) : Nat := if a * b < u64 then a * b else u64 - 1
-def satAdd (a b : Nat) : Nat := if a + b < u64 then a + b else u64 - 1
-
-/-- `aws_timestamp_convert_u64`: `(result, remainder)` -/
-def timestampConvert (ticks oldF newF : Nat) : Nat × Nat :=
-  let rem := if newF < oldF ∧ oldF % newF = 0 then ticks % (oldF / newF) else 0
-  let whole := ticks / oldF
-  let oldRem := ticks - whole * oldF
-  (satAdd (satMul whole newF) (satMul oldRem newF / oldF), rem)
+/-- `aws_timestamp_convert(x, from, to, remainder?)` through the generated translation of clock.inl;
+`u` is one of the generated call descriptions `(from, to, remainder pointer passed)` -/
+def convert (x : Nat) (u : Nat × Nat × Bool) : Nat × Nat :=
+  (Gen.Math.Clock.aws_timestamp_convert x u.1 u.2.1 u.2.2).getD (0, 0)
 
 def toU64 (x : Int) : Nat := (x % (u64 : Int)).toNat
 
 /-- `aws_date_time_init_epoch_millis` -/
 def initEpochMillis (ms : Nat) : DateTime :=
-  let (secs, rem) := timestampConvert ms 1000 1
+  let (secs, rem) := convert ms Gen.Date.initMillis
   mkDateTime secs (rem % 65536) false []
 
 /-- `aws_date_time_init_epoch_secs` for the double `secs + ms/1000` (`ms < 1000`, `secs ≥ 0` when `ms > 0`) -/
 def initEpochSecs (secs : Int) (ms : Nat) : DateTime := mkDateTime secs ms false []
 
 def asMillis (dt : DateTime) : Nat :=
-  ((timestampConvert (toU64 dt.timestamp) 1 1000).1 + dt.millis) % u64
+  ((convert (toU64 dt.timestamp) Gen.Date.asMillisSecs).1 + dt.millis) % u64
 
 def asNanos (dt : DateTime) : Nat :=
-  ((timestampConvert (toU64 dt.timestamp) 1 1000000000).1 + (timestampConvert dt.millis 1000 1000000000).1) % u64
+  ((convert (toU64 dt.timestamp) Gen.Date.asNanosSecs).1 + (convert dt.millis Gen.Date.asNanosMillis).1) % u64
 
 /-! ### accessors (UTC), with the C result types -/
 
